@@ -104,8 +104,9 @@ def check_render(run, info, n_bodies, tag):
     rng = run.rng
     texts = []
     for k in range(n_bodies):
-        g = gen_st.G_(rng, depth=rng.choice([1, 2, 3]), empties=(k % 4 == 0))
-        sx, lx = g.body()
+        with gen_st.mode(reals=False, decl_typed=False):
+            g = gen_st.G_(rng, depth=rng.choice([1, 2, 3]), empties=(k % 4 == 0))
+            sx, lx = g.body()
         texts.append(gen_prog.render(lx, None))
     res = vlib.run_impl([{"id": i, "op": "roundtrip", "text": hexs(t)} for i, t in enumerate(texts)], run.workdir, per_case_timeout=30)
     rendered = []
@@ -120,19 +121,14 @@ def check_render(run, info, n_bodies, tag):
         if rendered[i] is None or not m or m[0] != "rendered":
             continue
         # without trivia and without the synthetic ';' the tokenizer inserts after END_IF (empty text)
-        toks = [(x[0], bytes.fromhex(x[5]).decode("utf-8", "replace")) for x in tok[i].get("tokens", [])
-                if x[0] not in ("Whitespace", "Newline", "Comment") and not (x[0] == "Semicolon" and x[5] == "")]
+        toks = _sig_tokens(tok[i].get("tokens", []))
         # FUNCTION_BLOCK name <statements> END_FUNCTION_BLOCK
         if len(toks) < 3 or toks[0][0] != "FunctionBlock" or toks[-1][0] != "EndFunctionBlock":
             continue
         impl = toks[2:-1]
-        mod = []
-        for w in (m[1].split(" ") if len(m) > 1 and m[1] else []):
-            k, h = w.split(":", 1)
-            mod.append((k, "".join(chr(int(c, 16)) for c in h.split(".") if c)))
-        keep = ("Identifier", "Digits", "SingleByteString", "DoubleByteString")
-        a = [(k, x if k in keep else "") for k, x in impl]
-        b = [(k, x if k in keep else "") for k, x in mod]
+        mod = _model_tokens(m[1] if len(m) > 1 else "")
+        a = _comparable(impl)
+        b = _comparable(mod)
         compared += 1
         run.cov["traces_validated_against_impl"] += 1
         if a != b:
@@ -239,7 +235,8 @@ def check_render_fbd(run, info, n, tag):
     texts = []
     nostmt = []
     for k in range(n):
-        vs, es, ss, lx = gen_st.fbd_body(rng, depth=rng.choice([1, 1, 2]))
+        with gen_st.mode(reals=False, decl_typed=False):
+            vs, es, ss, lx = gen_st.fbd_body(rng, depth=rng.choice([1, 1, 2]))
         texts.append(gen_prog.render(lx, None))
         nostmt.append(ss == "()")
     res = vlib.run_impl([{"id": i, "op": "roundtrip", "text": hexs(t)} for i, t in enumerate(texts)], run.workdir, per_case_timeout=30)
@@ -254,21 +251,16 @@ def check_render_fbd(run, info, n, tag):
         m = model.get(str(i))
         if rendered[i] is None or not m or m[0] != "rendered":
             continue
-        toks = [(x[0], bytes.fromhex(x[5]).decode("utf-8", "replace")) for x in tok[i].get("tokens", [])
-                if x[0] not in ("Whitespace", "Newline", "Comment") and not (x[0] == "Semicolon" and x[5] == "")]
+        toks = _sig_tokens(tok[i].get("tokens", []))
         if len(toks) < 3 or toks[0][0] != "FunctionBlock" or toks[-1][0] != "EndFunctionBlock":
             continue
         impl = toks[2:-1]
-        mod = []
-        for w in (m[1].split(" ") if len(m) > 1 and m[1] else []):
-            k, h = w.split(":", 1)
-            mod.append((k, "".join(chr(int(c, 16)) for c in h.split(".") if c)))
-        keep = ("Identifier", "Digits", "SingleByteString", "DoubleByteString")
-        a = [(k, x if k in keep else "") for k, x in impl]
-        b = [(k, x if k in keep else "") for k, x in mod]
+        mod = _model_tokens(m[1] if len(m) > 1 else "")
+        a = _comparable(impl)
+        b = _comparable(mod)
         # a body of empty statements only is Statements([]) in the tree and is written ';'; the model's list of statements
         # is empty both for it and for no body at all
-        if nostmt[i] and a and a[-1] == ("Semicolon", "") and len(a) == len(b) + 1:
+        if nostmt[i] and a and a[-1][:2] == ("Semicolon", "") and len(a) == len(b) + 1:
             a = a[:-1]
         compared += 1
         run.cov["traces_validated_against_impl"] += 1
@@ -281,21 +273,56 @@ def check_render_fbd(run, info, n, tag):
 
 
 def _sig_tokens(toklist):
-    return [(x[0], bytes.fromhex(x[5]).decode("utf-8", "replace")) for x in toklist
-            if x[0] not in ("Whitespace", "Newline", "Comment") and not (x[0] == "Semicolon" and x[5] == "")]
+    """the significant tokens (kind, text, whether trivia stands before the token) of a tokenizer result; the ';' the tokenizer
+    inserts after END_IF (empty text) is left out"""
+    out = []
+    gap = False
+    for x in toklist:
+        if x[0] in ("Whitespace", "Newline", "Comment"):
+            gap = True
+            continue
+        if x[0] == "Semicolon" and x[5] == "":
+            continue
+        out.append((x[0], bytes.fromhex(x[5]).decode("utf-8", "replace"), gap))
+        gap = False
+    return out
+
+
+def _model_tokens(field):
+    """the same of the renderer model's answer: [+]kind:texthex separated by blanks"""
+    out = []
+    for w in (field.split(" ") if field else []):
+        gap = w.startswith("+")
+        k, h = w.lstrip("+").split(":", 1)
+        out.append((k, "".join(chr(int(c, 16)) for c in h.split(".") if c), gap))
+    return out
+
+
+KEEP = ("Identifier", "Digits", "SingleByteString", "DoubleByteString")
+
+
+def _comparable(toks):
+    """kind, the text where it carries meaning, and where blanks stand (the first token's surroundings are not the model's)"""
+    # (a negative constant is the recorded negative-literal rendering: the renderer glues its '-' to what stands before and puts a
+    # blank after it, 'NOT- 12'; the model writes 'NOT - 12'; whether a blank stands before a '-' that precedes digits is not compared)
+    # the same for the digits after a '-' (a negative initial value is written '- 1'; the model of declarations has '-1', outside its guard)
+    return [(k, x if k in KEEP else "", g or j == 0 or (k == "Minus" and j + 1 < len(toks) and toks[j + 1][0] == "Digits")
+             or (k == "Digits" and toks[j - 1][0] == "Minus"))
+            for j, (k, x, g) in enumerate(toks)]
 
 
 def _drop_lonely_semicolons(a):
     """a unit whose body holds empty statements only is Statements([]) in the tree and is written ';': drop a ';' that
     stands between the declarations (or the unit's name) and the closing keyword"""
     out = []
-    for j, (k, x) in enumerate(a):
+    for j, t in enumerate(a):
+        k = t[0]
         if k == "Semicolon" and j + 1 < len(a) and a[j + 1][0] in ("EndFunctionBlock", "EndProgram"):
             prev = a[j - 1][0] if j >= 1 else ""
             prev2 = a[j - 2][0] if j >= 2 else ""
             if prev == "EndVar" or (prev == "Identifier" and prev2 in ("FunctionBlock", "Program")):
                 continue
-        out.append((k, x))
+        out.append(t)
     return out
 
 
@@ -305,7 +332,8 @@ def check_render_lib2(run, info, n, tag):
     rng = run.rng
     texts = []
     for k in range(n):
-        us, lx = gen_st.lib2_elements(rng, depth=rng.choice([1, 1, 2]))
+        with gen_st.mode(reals=False, decl_typed=False):
+            us, lx = gen_st.lib2_elements(rng, depth=rng.choice([1, 1, 2]))
         if _without_program_edges(us) != us:
             continue                      # the recorded finding: the library does not hold the edge inputs of a program
         texts.append(gen_prog.render(lx, None if rng.random() < 0.6 else gen_prog.Spelling(rng, respell=True, nonascii=False)))
@@ -323,12 +351,9 @@ def check_render_lib2(run, info, n, tag):
         if rendered[i] is None or not m or m[0] != "rendered":
             continue
         impl = _sig_tokens(tok[i].get("tokens", []))
-        mod = []
-        for w in (m[1].split(" ") if len(m) > 1 and m[1] else []):
-            k, h = w.split(":", 1)
-            mod.append((k, "".join(chr(int(c, 16)) for c in h.split(".") if c)))
-        a = _drop_lonely_semicolons([(k, x if k in keep else "") for k, x in impl])
-        b = [(k, x if k in keep else "") for k, x in mod]
+        mod = _model_tokens(m[1] if len(m) > 1 else "")
+        a = _drop_lonely_semicolons(_comparable(impl))
+        b = _comparable(mod)
         compared += 1
         run.cov["traces_validated_against_impl"] += 1
         if a != b:
